@@ -32,9 +32,16 @@ func main() {
 	dir := flag.String("dir", ".", "module root of the scratch copy")
 	pkgs := flag.String("pkgs", "", "comma separated package directories (relative to the module root)")
 	seamList := flag.String("seams", "", "comma separated dir:Func or dir:Type.Method whose body gets a replaceable prologue (ZsimSeam_*)")
+	preemptList := flag.String("preempt", "", "comma separated package directories whose loops get a scheduling point at the end of every iteration (models pre-emption inside code without synchronisation)")
 	argList := flag.String("argseams", "", "comma separated dir:Func or dir:Type.Method whose arguments can be substituted (ZsimArgs_*)")
 	flag.Parse()
 	seams, argSeams := parseSeams(*seamList), parseSeams(*argList)
+	preempt := map[string]bool{}
+	for _, d := range strings.Split(*preemptList, ",") {
+		if d = strings.TrimSpace(d); d != "" {
+			preempt[d] = true
+		}
+	}
 	var pats []string
 	for _, p := range strings.Split(*pkgs, ",") {
 		p = strings.TrimSpace(p)
@@ -80,6 +87,7 @@ func main() {
 			in := &instr{fset: fset, info: p.TypesInfo, file: f, fname: filepath.Base(name), pkg: p.Types}
 			rel, _ := filepath.Rel(*dir, filepath.Dir(name))
 			in.seams, in.argSeams = seams[rel], argSeams[rel]
+			in.preempt = preempt[rel]
 			if err := in.run(); err != nil {
 				fmt.Fprintf(os.Stderr, "instr: %s: %v\n", name, err)
 				os.Exit(2)
@@ -119,6 +127,21 @@ type instr struct {
 	keep     map[string]string // local package name -> member to reference so the import stays used
 	seams    map[string]bool   // Func or Type.Method -> give it a replaceable prologue
 	argSeams map[string]bool
+	preempt  bool // scheduling point at the end of every loop iteration
+}
+
+// loopYield appends a scheduling point to a loop body (packages listed with -preempt).
+func (in *instr) loopYield(loop ast.Stmt, body *ast.BlockStmt) {
+	if !in.preempt || body == nil {
+		return
+	}
+	if n := len(body.List); n > 0 {
+		switch body.List[n-1].(type) {
+		case *ast.ReturnStmt, *ast.BranchStmt:
+			return
+		}
+	}
+	body.List = append(body.List, in.zstmt("Yield", in.site(loop)))
 }
 
 func parseSeams(s string) map[string]map[string]bool {
@@ -500,6 +523,7 @@ func (in *instr) stmt(s ast.Stmt, label *ast.Ident) ast.Stmt {
 		s.Cond = in.fixExpr(s.Cond)
 		s.Post = in.simple(s.Post)
 		in.block(s.Body)
+		in.loopYield(s, s.Body)
 		return s
 	case *ast.RangeStmt:
 		if in.isChanRange(s) {
@@ -510,6 +534,7 @@ func (in *instr) stmt(s ast.Stmt, label *ast.Ident) ast.Stmt {
 		}
 		s.X = in.fixExpr(s.X)
 		in.block(s.Body)
+		in.loopYield(s, s.Body)
 		return s
 	case *ast.SwitchStmt:
 		s.Init = in.simple(s.Init)
